@@ -68,7 +68,7 @@ def untaggable_dropped(e):
             if x.get("k") == "tag":
                 inner = x["e"]
                 nl = inner.get("k") == "alt" and inner["es"] and inner["es"][0] == {"k": "str", "s": [10]} and len(inner["es"]) == 3
-                if inner["k"] not in ("str", "istr", "cls", "cset", "any", "soi") and not nl:
+                if x.get("grp") or (inner["k"] not in ("str", "istr", "cls", "cset", "any", "soi") and not nl):
                     tags.append(x["t"])
                 go(inner)
             else:
